@@ -29,8 +29,13 @@ const DB: &str = "simdb";
 #[derive(Clone, Debug, Serialize, Deserialize, PartialEq)]
 #[serde(rename_all = "snake_case")]
 pub enum PageStep {
-  /// add `n` new documents (one writer per call, as the JS binding does)
-  Add { n: u8 },
+  /// add `n` new documents (one writer per call, as the JS binding does);
+  /// `blank`: documents without any indexable token (zero-length postings file)
+  Add {
+    n: u8,
+    #[serde(default)]
+    blank: bool,
+  },
   /// call commit(); with `wait` the page awaits the promise before its next step
   Commit { wait: bool },
   /// await every commit promise created so far
@@ -59,8 +64,9 @@ fn gen_case(rng: &mut Rng, thorough: bool) -> IdbCase {
   for _ in 0..ncommits {
     // now and then a commit with nothing new to commit
     let adds = if rng.chance(1, 6) { 0 } else { 1 + rng.usize(2) };
+    let blank = rng.chance(1, 5);
     for _ in 0..adds {
-      steps.push(PageStep::Add { n: 1 + rng.below(3) as u8 });
+      steps.push(PageStep::Add { n: 1 + rng.below(3) as u8, blank });
     }
     let wait = match await_style {
       0 => true,
@@ -73,7 +79,7 @@ fn gen_case(rng: &mut Rng, thorough: bool) -> IdbCase {
     }
   }
   if rng.chance(1, 3) {
-    steps.push(PageStep::Add { n: 1 }); // an uncommitted tail
+    steps.push(PageStep::Add { n: 1, blank: false }); // an uncommitted tail
   }
   let choices: Vec<u8> = (0..8 + rng.usize(24)).map(|_| if rng.chance(2, 5) { 0 } else { 1 }).collect();
   let close_at = if rng.chance(1, 10) { u32::MAX } else { rng.below(48) as u32 };
@@ -232,14 +238,15 @@ fn run_case(case: &IdbCase, stats: &mut Stats) -> RunOut {
       let step = case.steps[next_step].clone();
       next_step += 1;
       match step {
-        PageStep::Add { n } => {
+        PageStep::Add { n, blank } => {
           let s = page.borrow().searchlite.clone().unwrap();
           let mut docs = Vec::new();
           for _ in 0..n {
             next_doc += 1;
             let id = format!("d{}", next_doc);
-            docs.push(doc(&id, next_doc));
-            page.borrow_mut().queued.push((id.clone(), next_doc));
+            let ver = if blank { sim::work::BLANK_VERSIONS + next_doc } else { next_doc * 8 };
+            docs.push(doc(&id, ver));
+            page.borrow_mut().queued.push((id.clone(), ver));
             all_added.insert(id);
           }
           out.trace.push(format!("page add {}", n));
@@ -452,9 +459,9 @@ impl Engine for IdbEngine {
     }
     for i in 0..case.steps.len() {
       match &case.steps[i] {
-        PageStep::Add { n } if *n > 1 => {
+        PageStep::Add { n, blank } if *n > 1 => {
           let mut c = case.clone();
-          c.steps[i] = PageStep::Add { n: 1 };
+          c.steps[i] = PageStep::Add { n: 1, blank: *blank };
           out.push(c);
         }
         PageStep::Commit { wait: false } => {
